@@ -388,8 +388,8 @@ def r2(db, rep):
                 rep.ok("R2-shared-table", key, facts.loc(f, hits[0][0]), "lower fields are skipped by meta.size")
             else:
                 rep.violation("R2-shared-table", key, facts.loc(f), "the insertion point is not advanced by RADIOTAP_METADATA[bit].size")
-    if n_calls < 2:
-        rep.analysis_broken("expected calculate_padding on the insertion and the re-padding path, found %d call(s)" % n_calls)
+    if n_calls < 1:
+        rep.analysis_broken("expected calculate_padding on the insertion path (and the re-padding path), found %d call(s)" % n_calls)
     # parser: align relative to start_ - 4, alignment from table
     fs = db.fns_named("Tins::Utils::RadioTapParser::advance_to_next_field")
     if not fs:
@@ -623,7 +623,34 @@ def iter_offset(f, n, env):
     raise ieval.Unknown("iterator expression %s" % k)
 
 
+def r5_call(db, rep):
+    """write_option re-pads what FOLLOWS the field it has just inserted: the offset it hands to update_paddings is the
+    insertion offset plus the new field's own leading padding plus its size"""
+    fs = db.fns_named("Tins::Utils::RadioTapWriter::write_option")
+    if not fs:
+        return
+    f = fs[0]
+    calls = [x for x in facts.fn_nodes(f) if x["k"] == "CXXMemberCallExpr" and x.get("cname") == "update_paddings" and len(x["c"]) == 3]
+    if not calls:
+        return
+    pads = set(n["var"] for n in facts.fn_nodes(f) if n["k"] == "VarDecl" and n.get("c") and
+               any(x["k"] == "CallExpr" and x.get("cname") == "calculate_padding" for x in facts.walk(n["c"][0])))
+    a = facts.inline_locals(f, calls[0]["c"][2], kinds=())
+    has_pad = any(x["k"] == "DeclRefExpr" and x.get("var") in pads for x in facts.walk(calls[0]["c"][2])) or \
+        any(x["k"] == "CallExpr" and x.get("cname") == "calculate_padding" for x in facts.walk(facts.inline_locals(f, calls[0]["c"][2])))
+    has_size = "data_size" in facts.expr_str(facts.inline_locals(f, calls[0]["c"][2]))
+    key = "write_option:repad-from"
+    if has_pad and has_size:
+        rep.ok("R5-repad-step", key, facts.loc(f, calls[0]), "update_paddings starts after offset + own padding + size of the new field")
+    else:
+        rep.violation("R5-repad-step", key, facts.loc(f, calls[0]),
+                      "the offset handed to update_paddings leaves out %s: the re-padding pass believes every following field sits that many "
+                      "octets earlier than it does and inserts / erases padding at the wrong place" %
+                      ("the new field's own leading padding" if not has_pad else "the new field's size"))
+
+
 def r5(db, rep):
+    r5_call(db, rep)
     from vlib import ieval
     fs = db.fns_named("Tins::Utils::RadioTapWriter::update_paddings")
     if not fs:
@@ -636,8 +663,39 @@ def r5(db, rep):
             if any(x["k"] == "CallExpr" and x.get("cname") == "calculate_padding" for x in facts.walk(n["c"][0])):
                 needed = n
     if needed is None:
+        # not through calculate_padding: the variable computed from the field's alignment (an element of the padding vector)
+        # and the running offset is the needed padding - its formula is judged below by evaluation
+        for n in facts.fn_nodes(f):
+            if n["k"] == "VarDecl" and n.get("c") and (facts.tyi(f, n.get("t")) or {}).get("k") == "int" and \
+                    any(x["k"] == "CXXOperatorCallExpr" and x.get("op") == "[]" and "paddings" in facts.expr_str(x) for x in facts.walk(n["c"][0])) and \
+                    any(x["k"] in ("BinaryOperator",) and x.get("op") in ("%", "&", "-") for x in facts.walk(n["c"][0])):
+                needed = n
+    if needed is None:
         rep.analysis_broken("update_paddings: the needed padding is not computed with calculate_padding")
         return
+    # the formula: for alignment a and a field that would start at header offset o + 4, (a - (o + 4) % a) % a
+    okf = None
+    try:
+        for a_ in (1, 2, 4, 8):
+            for o_ in range(0, 17):
+                def tf(x, env, a_=a_):
+                    if x["k"] == "CXXOperatorCallExpr" and x.get("op") == "[]" and "paddings" in facts.expr_str(x):
+                        return a_
+                    return None
+                ovars = dict((x["var"], o_) for x in facts.walk(needed["c"][0]) if x["k"] == "DeclRefExpr" and x.get("var") and
+                             (x.get("parm") or x.get("name") == "offset") and (facts.ty(f, x) or {}).get("k") == "int")
+                v = ieval.ev(f, needed["c"][0], dict(ovars, __termfn2__=tf, __db__=db)) & 0xff
+                if v != (a_ - (o_ + 4) % a_) % a_ and okf is None:
+                    okf = "for alignment %d at payload offset %d the needed padding is computed as %d, it is %d" % (a_, o_, v, (a_ - (o_ + 4) % a_) % a_)
+    except ieval.Unknown as e:
+        okf = None
+        rep.undecided("R5-repad-step", "update_paddings:needed-formula", facts.loc(f, needed), "outside the finite evaluator: %s" % e)
+    else:
+        if okf:
+            rep.violation("R5-repad-step", "update_paddings:needed-formula", facts.loc(f, needed),
+                          okf + ": a 4-byte aligned field that ends up 1 or 3 octets past a boundary after an insertion is re-padded wrongly")
+            return
+        rep.ok("R5-repad-step", "update_paddings:needed-formula", facts.loc(f, needed), "(a - (o + 4) % a) % a for a in {1,2,4,8}, o in 0..16")
     # the comparison chain: first IfStmt whose condition mentions the needed-padding variable
     chain = None
     for n in facts.fn_nodes(f):
